@@ -109,7 +109,7 @@ pub fn run(case: &Case) -> Vec<Violation> {
     RETAINED.with(|r| r.borrow_mut().clear());
     FREED_HIT.with(|f| *f.borrow_mut() = None);
     talloc::set_on_free(Some(on_free_events));
-    let dir = PathBuf::from(format!("/verif/scratch/c17-{}", std::process::id()));
+    let dir = PathBuf::from(format!("{}/scratch/c17-{}", crate::report::root(), std::process::id()));
     let _ = std::fs::create_dir_all(dir.join("watched_dir"));
     let _ = std::fs::write(dir.join("watched_file"), b"x");
     let paths = [dir.join("watched_dir"), dir.join("watched_file")];
